@@ -240,7 +240,7 @@ func (n *node) apply1(o op, check bool, fail failer) string {
 			case strings.Contains(want, "hours"):
 				props += ",C03"
 			case strings.Contains(want, "double-spend"), strings.Contains(want, "input-not-unspent"), strings.Contains(want, "dup-input"), strings.Contains(want, "duplicate-created"):
-				props += ",C02"
+				props += ",C02,C01" // an output spent twice is paid out twice: the accepted block also creates coins
 			case strings.Contains(want, "txn:malformed"), strings.Contains(want, "wrong-signer"):
 				props += ",C02"
 			}
